@@ -11,9 +11,11 @@ import (
 	"io"
 	"net/url"
 	"os"
+	"os/signal"
 	"path/filepath"
 	"regexp"
 	"strings"
+	"syscall"
 	"time"
 
 	"verif/internal/model/cli"
@@ -54,6 +56,20 @@ func main() {
 		out: bufio.NewWriter(os.Stdout), mode: "exec", start: time.Now(),
 		reload: "none", modified: spec.Modified}
 	s.dev = cli.NewDevice(spec)
+	if spec.LingerMs > 0 {
+		// Outlive the tool: ignore the hang-up of the pty and stay for a
+		// while after the parent has gone, keeping every inherited
+		// descriptor open meanwhile.
+		signal.Ignore(syscall.SIGHUP)
+		parent := os.Getppid()
+		go func() {
+			for os.Getppid() == parent {
+				time.Sleep(5 * time.Millisecond)
+			}
+			time.Sleep(time.Duration(spec.LingerMs) * time.Millisecond)
+			os.Exit(0)
+		}()
+	}
 	s.event("<session-start>", "login", "accepted")
 	switch spec.Type {
 	case "asa", "ios":
@@ -80,6 +96,9 @@ func (s *session) readLine() string {
 	line, err := s.in.ReadString('\n')
 	if err != nil {
 		s.event("<eof>", "end", "accepted")
+		if s.spec.LingerMs > 0 {
+			time.Sleep(time.Duration(s.spec.LingerMs) * time.Millisecond)
+		}
 		os.Exit(0)
 	}
 	line = strings.TrimRight(line, "\r\n")
